@@ -42,7 +42,7 @@ def runs(draw, tier):
     else:
         pbs, ep = draw(st.integers(1, N + 2)), draw(st.integers(1, 3))
     c = {"type": t, "n": n, "idx": idx, "pbs": pbs, "nbs": draw(st.one_of(st.none(), st.integers(1, 6))),
-         "epochs": ep, "form": draw(st.sampled_from(["tensor", "ndarray", "list", "int_ndarray"])),
+         "epochs": ep, "form": draw(st.sampled_from(["tensor", "ndarray", "list", "int_ndarray", "float32_tensor", "long_tensor", "tuple", "float32_ndarray"])),
          "torch_seed": draw(st.integers(0, 2 ** 31 - 1)), "k": draw(st.integers(0, 2))}
     if with_bases:
         bs = [draw(gen.basis_string(n)) if draw(st.booleans()) else "Z" * n for _ in range(N)]
@@ -66,6 +66,18 @@ def check(c):
         data = torch.tensor(rows, dtype=torch.double)
         keep = data.clone()
         unchanged = lambda: torch.equal(data, keep)
+    elif c["form"] in ("float32_tensor", "long_tensor"):
+        data = torch.tensor(rows, dtype=torch.float32 if c["form"] == "float32_tensor" else torch.long)
+        keep = data.clone()
+        unchanged = lambda: torch.equal(data, keep) and data.dtype == keep.dtype
+    elif c["form"] == "tuple":
+        data = tuple(tuple(int(x) for x in r) for r in rows)
+        keep = copy.deepcopy(data)
+        unchanged = lambda: data == keep
+    elif c["form"] == "float32_ndarray":
+        data = np.array(rows, dtype=np.float32)
+        keep = data.copy()
+        unchanged = lambda: np.array_equal(data, keep) and data.dtype == np.float32
     elif c["form"] == "ndarray":
         data = np.array(rows, dtype=np.float64)
         keep = data.copy()
